@@ -12,6 +12,9 @@ JoinLoc(l) == l
 LocCases == {[tables |-> S, requested |-> r, default |-> d, key |-> k] : S \in TableSets, r \in Locales, d \in Defaults, k \in Keys}
 StatusCases == {[configured |-> c, preferred |-> p, min |-> lo, max |-> hi, client |-> cl] :
                   c \in BOOLEAN, p \in {767, 770}, lo \in {0, 766, 770}, hi \in {765, 770, 1000}, cl \in {-1, 0, 765, 766, 767, 770, 771, 1000, 1001}}
+Idents == {"steve", "alex", "nil"}
+AuthCases == [kind : {"disabled", "fixed"}, claimed : [who : Idents, props : {0}], fixed : [who : {"steve", "service"}, props : {0, 2}]]
+DiscCases == [targets : {<<>>, <<"t1">>, <<"t2", "t1">>, <<"t1", "t1">>, <<"t1", "t2", "t3">>}, calls : {1, 3}]
 Init == done = FALSE
 Next == done = FALSE /\ done' = TRUE
 Spec == Init /\ [][Next]_done
@@ -22,7 +25,11 @@ LanguageBeforeDefault == \A c \in LocCases : (Len(c.requested) >= 2 /\ c.request
 DefaultLast == \A c \in LocCases : (\A i \in 1..Len(c.requested) : SubSeq(c.requested, 1, i) \notin c.tables) /\ c.default \in c.tables
                              => ChosenTable(TablesOf(c.tables), c.requested, c.default) = c.default
 InRangeEchoes == \A c \in StatusCases : (c.configured /\ c.min <= c.client /\ c.client <= c.max) => StatusAnswer(c.configured, c.preferred, c.min, c.max, c.client).protocol = c.client
-Facts == ExactLocaleWins /\ LanguageBeforeDefault /\ DefaultLast /\ InRangeEchoes
+DisabledVouchesForClaim == \A c \in AuthCases : c.kind = "disabled" => AuthAnswer(c.kind, c.claimed, c.fixed).who = c.claimed.who
+FixedIgnoresClaim == \A c \in AuthCases : c.kind = "fixed" => AuthAnswer(c.kind, c.claimed, c.fixed) = c.fixed
+Facts == ExactLocaleWins /\ LanguageBeforeDefault /\ DefaultLast /\ InRangeEchoes /\ DisabledVouchesForClaim /\ FixedIgnoresClaim
 Export == done => /\ \A c \in LocCases : PrintT(<<"REPLAY", ToJson([kind |-> "loc", case |-> [tables |-> c.tables, requested |-> c.requested, default |-> c.default, key |-> c.key]])>>)
                   /\ \A c \in StatusCases : PrintT(<<"REPLAY", ToJson([kind |-> "status", case |-> c])>>)
+                  /\ \A c \in AuthCases : PrintT(<<"REPLAY", ToJson([kind |-> "auth", case |-> c])>>)
+                  /\ \A c \in DiscCases : PrintT(<<"REPLAY", ToJson([kind |-> "discover", case |-> c])>>)
 =============================================================================
